@@ -12,6 +12,67 @@
 #include <iomanip>
 #endif // DF__SQF_RUNTIME__ASSEMBLY_DEBUG_ON_EXECUTE
 
+// Hands a runtime error to the nearest frame that takes it. Returns false when nobody did: the stack trace has been
+// logged then and the run has to end with result::runtime_error.
+static bool recover_runtime_error(sqf::runtime::runtime& runtime, sqf::runtime::context& context_active, sqf::runtime::diagnostics::diag_info error_diag_info)
+{
+    auto& runtime_error = runtime.__runtime_error();
+    auto log_messages = runtime.log_messages;
+    runtime.log_messages.clear();
+    // Build Stacktrace
+    std::vector<sqf::runtime::frame> stacktrace_frames(context_active.frames_rbegin(), context_active.frames_rend());
+    sqf::runtime::diagnostics::stacktrace stacktrace(stacktrace_frames);
+
+    // Try to find a frame that has recover behavior for runtime error.
+    // A frame may decline (try/catch only takes what was thrown at it): it is left like every other frame
+    // on the way and the search goes on further out, so that the error is never dropped silently.
+    bool recovered = false;
+    stacktrace.value = std::make_shared<sqf::types::d_array>(log_messages.begin(), log_messages.end());
+    while (!context_active.empty())
+    {
+        auto res = std::find_if(context_active.frames_rbegin(), context_active.frames_rend(),
+            [](sqf::runtime::frame& frame) -> bool { return frame.can_recover_runtime_error(); });
+        if (res == context_active.frames_rend())
+        {
+            break;
+        }
+        // Pop all frames between result and current_frame
+        size_t frames_to_pop = res - context_active.frames_rbegin();
+        for (size_t i = 0; i < frames_to_pop; i++)
+        {
+            context_active.clear_values();
+            context_active.pop_frame();
+        }
+        // Push Stacktrace to value-stack
+        context_active.push_value({ std::make_shared<sqf::types::d_stacktrace>(stacktrace) });
+
+        // Recover from exception
+        if (context_active.current_frame().recover_runtime_error(runtime) != sqf::runtime::frame::result::error)
+        {
+            recovered = true;
+            break;
+        }
+        context_active.clear_values();
+        context_active.pop_frame();
+    }
+
+    if (recovered)
+    {
+        runtime_error = false;
+        return true;
+    }
+    // No recover frame available
+#ifdef DF__SQF_RUNTIME__ASSEMBLY_DEBUG_ON_EXECUTE
+    std::cout << "\x1B[33m[ASSEMBLY ASSERT]\033[0m" <<
+        "        " <<
+        "        " <<
+        "    " << "\x1B[36mEXIT execute_do\033[0m as runtime error occured" << std::endl;
+#endif // DF__SQF_RUNTIME__ASSEMBLY_DEBUG_ON_EXECUTE
+    runtime.__logmsg(logmessage::runtime::Stacktrace(error_diag_info, stacktrace));
+    runtime_error = false;
+    return false;
+}
+
 static sqf::runtime::runtime::result execute_do(sqf::runtime::runtime& runtime, size_t exit_after)
 {
     auto& context_active = runtime.context_active();
@@ -74,6 +135,17 @@ static sqf::runtime::runtime::result execute_do(sqf::runtime::runtime& runtime, 
         auto& frame = context_active.current_frame();
 
         auto result = frame.next(runtime);
+
+        if (runtime_error)
+        { // raised while an exit behaviour ran (the code of count, select, findIf, while ... yielded something unusable):
+          // it belongs to this statement, not to whatever instruction happens to be executed next
+            auto behaviour_diag_info = context_active.empty() ? sqf::runtime::diagnostics::diag_info() : context_active.current_frame().diag_info_from_position();
+            if (!recover_runtime_error(runtime, context_active, behaviour_diag_info))
+            {
+                return sqf::runtime::runtime::result::runtime_error;
+            }
+            continue;
+        }
 
         if (result == sqf::runtime::frame::result::done && context_active.frames_size() == frame_count)
         { // frame is done executing. Pop it from context and rerun.
@@ -222,69 +294,9 @@ static sqf::runtime::runtime::result execute_do(sqf::runtime::runtime& runtime, 
         {
             runtime.log_messages.clear();
         }
-        else
+        else if (!recover_runtime_error(runtime, context_active, (*instruction)->diag_info()))
         {
-            auto log_messages = runtime.log_messages;
-            runtime.log_messages.clear();
-            // frames (and with them the instruction) may be gone once handlers have been tried
-            auto error_diag_info = (*instruction)->diag_info();
-            // Build Stacktrace
-            std::vector<sqf::runtime::frame> stacktrace_frames(context_active.frames_rbegin(), context_active.frames_rend());
-            sqf::runtime::diagnostics::stacktrace stacktrace(stacktrace_frames);
-
-            // Try to find a frame that has recover behavior for runtime error.
-            // A frame may decline (try/catch only takes what was thrown at it): it is left like every other frame
-            // on the way and the search goes on further out, so that the error is never dropped silently.
-            bool recovered = false;
-            stacktrace.value = std::make_shared<sqf::types::d_array>(log_messages.begin(), log_messages.end());
-            while (true)
-            {
-                auto res = std::find_if(context_active.frames_rbegin(), context_active.frames_rend(),
-                    [](sqf::runtime::frame& frame) -> bool { return frame.can_recover_runtime_error(); });
-                if (res == context_active.frames_rend())
-                {
-                    break;
-                }
-                // Pop all frames between result and current_frame
-                size_t frames_to_pop = res - context_active.frames_rbegin();
-                for (size_t i = 0; i < frames_to_pop; i++)
-                {
-                    context_active.clear_values();
-                    context_active.pop_frame();
-                }
-                // Push Stacktrace to value-stack
-                context_active.push_value({ std::make_shared<sqf::types::d_stacktrace>(stacktrace) });
-
-                // Recover from exception
-                if (context_active.current_frame().recover_runtime_error(runtime) != sqf::runtime::frame::result::error)
-                {
-                    recovered = true;
-                    break;
-                }
-                context_active.clear_values();
-                context_active.pop_frame();
-                if (context_active.empty())
-                {
-                    break;
-                }
-            }
-
-            if (recovered)
-            {
-                runtime_error = false;
-            }
-            else
-            { // No recover frame available, exit method
-#ifdef DF__SQF_RUNTIME__ASSEMBLY_DEBUG_ON_EXECUTE
-                std::cout << "\x1B[33m[ASSEMBLY ASSERT]\033[0m" <<
-                    "        " <<
-                    "        " <<
-                    "    " << "\x1B[36mEXIT execute_do\033[0m as runtime error occured" << std::endl;
-#endif // DF__SQF_RUNTIME__ASSEMBLY_DEBUG_ON_EXECUTE
-                runtime.__logmsg(logmessage::runtime::Stacktrace(error_diag_info, stacktrace));
-                runtime_error = false;
-                return sqf::runtime::runtime::result::runtime_error;
-            }
+            return sqf::runtime::runtime::result::runtime_error;
         }
     }
 }
